@@ -55,6 +55,16 @@ class Message:
         return len(self._v) if self._v is not None else 0
 
 
+class ErrorEvent(Message):
+    """what poll() hands out for a transient error: error() is set, the rest is meaningless"""
+
+    def __init__(self, topic, partition):
+        Message.__init__(self, topic, partition, -1, None, None)
+
+    def error(self):
+        return KafkaException('transient error event')
+
+
 class Broker:
     def __init__(self, topic, npartitions):
         self.topic = topic
@@ -139,6 +149,12 @@ class Consumer:
         if self.assigned is None:
             return None
         t, p = self.assigned
+        k = getattr(self.b, 'n_fetch_polls', 0)
+        self.b.n_fetch_polls = k + 1
+        if k in getattr(self.b, 'error_polls', ()):
+            # an error event (not a message) in the middle of a fetch: the caller has to go on polling
+            self.b.note('error_event', p, self.pos)
+            return ErrorEvent(t, p)
         while self.pos < len(self.b.logs[p]) and self.b.logs[p][self.pos] is None:
             self.pos += 1
         if self.pos < len(self.b.logs[p]):
